@@ -924,7 +924,17 @@ func TestVerifC14(t *testing.T) {
 		if len(ndBefore) > 0 {
 			p, err := rsql.NewParser(strings.NewReader(st[0].Sql)).ParseStatement()
 			if err != nil {
-				rep.Fail("process-output-unparsable", fmt.Sprintf("Process output does not parse: %q -> %q", text, st[0].Sql), replay)
+				sig := "process-output-unparsable"
+				// is it the PRINTER alone? (the statement parsed and printed again, nothing rewritten)
+				if p0, e0 := rsql.NewParser(strings.NewReader(text)).ParseStatement(); e0 == nil {
+					if _, e1 := rsql.NewParser(strings.NewReader(p0.String())).ParseStatement(); e1 != nil {
+						sig = "printer-breaks-statement-without-any-rewrite"
+						if strings.Contains(p0.String(), "--") {
+							sig += ":nested-unary-minus-printed-as-comment"
+						}
+					}
+				}
+				rep.Fail(sig, fmt.Sprintf("Process output does not parse: %q -> %q", text, st[0].Sql), replay)
 				return
 			}
 			tr, _ := c14Record(p)
@@ -966,6 +976,10 @@ func TestVerifC14(t *testing.T) {
 		"WITH c AS (SELECT random() AS r) INSERT INTO t(a) SELECT r FROM c", "INSERT INTO t(a) VALUES(randomblob(0x10))",
 		"SELECT a FROM t ORDER BY (SELECT random() ORDER BY random()) + random()", "SELECT julianday('now') - julianday('now')",
 		"SELECT 'random()', \"date('now')\" FROM t", "SELECT random_col, timecol FROM t",
+		// a call directly under a sign: whatever is substituted must still be one expression when printed
+		// (a negative number behind a unary minus would read `--…`, a comment)
+		"INSERT INTO t(a, b) VALUES(-random(), - random())", "SELECT -random(), +random(), - -random(), -(random()), 1 - random(), 1 -random()",
+		"UPDATE t SET a = -random() WHERE b > -random()", "SELECT -julianday('now'), -unixepoch(), -strftime('%s','now'), -length(randomblob(4))",
 	} {
 		check(text, map[string]bool{"corpus": true}, true, true, false)
 	}
